@@ -587,11 +587,11 @@ func TestVerifL2(t *testing.T) {
 				} else {
 					b, _ = hex.DecodeString(e.Raw)
 				}
-				if len(b) == 0 {
-					t.Fatalf("INFRA: empty raw datagram")
-				}
 				if _, err := nw.conns[e.Peer].WriteToUDP(b, &net.UDPAddr{IP: net.ParseIP(nw.upf), Port: 8805}); err != nil {
 					t.Fatalf("INFRA: %v", err)
+				}
+				if len(b) == 0 {
+					nw.barrier(func() bool { return vfLoopReturned(st.srv) || x.peekFatal() })
 				}
 			case "report":
 				seid, _ := strconv.ParseUint(e.SEID, 10, 64)
@@ -632,11 +632,17 @@ func TestVerifL2(t *testing.T) {
 					time.Sleep(20 * time.Millisecond)
 					break
 				}
+				if !ok && vfLoopReturned(st.srv) {
+					break
+				}
 			}
 			if turns == 0 {
 				snap, _ = x.gate.waitFor(n0, time.Second)
 			}
 			ln := vf2Line{Tr: s.ID, I: i, E: e, Pkts: pkts, Fatal: x.takeFatal()}
+			if !ok && ln.Fatal == "" && vfLoopReturned(st.srv) {
+				ln.Fatal = "the PFCP event loop returned without Stop: the UPF stopped serving"
+			}
 			if !ok && ln.Fatal == "" {
 				w.Flush()
 				t.Fatalf("INFRA: script %s event %d (%s) not consumed by the loop within 20 s", s.ID, i, e.T)
